@@ -5,7 +5,7 @@ from props import Prop, register, text_hash
 from common import val_parse, val_str, Obj
 import bb_gen
 import bb_impl
-from bb_gen import absname
+from bb_gen import absname, client_ns
 
 
 def viol(clause, detail, **sig):
@@ -174,7 +174,7 @@ class BbProp(Prop):
         obs = parse_bobs(lines)
         out = []
         prev = BObs("")
-        hist = {"alias": set(), "remapchg": set(), "keys": {}}
+        hist = {"alias": set(), "remapchg": set(), "keys": {}, "acc": {}, "loc": {}, "nsof": {}, "untracked": set()}
         for o in obs:
             self.track(hist, prev, o)
             out += self.check_op(prev, o, hist) or []
@@ -185,8 +185,33 @@ class BbProp(Prop):
 
     @staticmethod
     def track(hist, prev, o):
-        """remember which clients ever mapped two keys to one location or changed a key's remap"""
+        """remember which clients ever mapped two keys to one location or changed a key's remap; and keep an independent
+        record of the live registrations (from the operations and their results alone, never from the client sets the
+        implementation reports): hist["acc"][c] = {absolute key: {'r','w','x'}}, hist["loc"][c] = {key: location}"""
         t = o.op.split()
+        if t[0] == "new" and o.R.startswith("client"):
+            c = int(o.R.split()[1])
+            hist["acc"][c], hist["loc"][c] = {}, {}
+            hist["nsof"][c] = client_ns(t[1])
+        elif t[0] == "reg" and o.R == "ok" and int(t[1]) in hist["acc"]:
+            c = int(t[1])
+            a = absname(hist["nsof"][c], t[2])
+            hist["acc"][c].setdefault(a, set()).add({"R": "r", "W": "w", "X": "x"}.get(t[3], "?"))
+            hist["loc"][c][a] = a if t[5] == "-" else t[5]
+        elif t[0] == "unregkey" and int(t[1]) in hist["acc"]:
+            c = int(t[1])
+            a = absname(hist["nsof"][c], t[2])
+            if o.R == "ok":
+                hist["acc"][c].pop(a, None)
+                hist["loc"][c].pop(a, None)
+            elif a in hist["acc"][c]:
+                hist["untracked"].add(c)      # raised half-way (K4 / K5 histories): what is left is not judged
+        elif t[0] in ("unregall", "unreg") and int(t[1]) in hist["acc"]:
+            c = int(t[1])
+            if o.R == "ok":
+                hist["acc"][c], hist["loc"][c] = {}, {}
+            else:
+                hist["untracked"].add(c)
         if t[0] == "reg" and o.R == "ok":
             c = int(t[1])
             cl = o.C[c]
@@ -201,6 +226,24 @@ class BbProp(Prop):
 
     def check_op(self, prev, o, hist):
         return []
+
+
+def client_sets_clause(hist, o):
+    """the access sets and remappings a client reports are exactly its live registrations (tracked independently)"""
+    out = []
+    for c, acc in hist["acc"].items():
+        if c in hist["untracked"] or c not in o.C:
+            continue
+        cl = o.C[c]
+        for lvl, name in (("r", "read"), ("w", "write"), ("x", "exclusive")):
+            want = sorted(k for k, v in acc.items() if lvl in v)
+            if sorted(cl[lvl]) != want:
+                out.append(viol("client-sets", "after `%s` client %d reports %s keys %s but its live registrations are %s"
+                                % (o.op, c, name, sorted(cl[lvl]), want)))
+        if sorted(cl["m"].items()) != sorted(hist["loc"][c].items()):
+            out.append(viol("client-sets", "after `%s` client %d remappings %s but live registrations map %s"
+                            % (o.op, c, sorted(cl["m"].items()), sorted(hist["loc"][c].items()))))
+    return out[:2]
 
 
 def resolve(cl, key):
@@ -315,8 +358,9 @@ class C06(BbProp):
             # clearing removes the values of locations that lose their last user; everything else stays
             if not same_state_minus(prev, o):
                 gone = set(prev.S) - set(o.S)
+                tracked_users = {l for c2, m in hist["loc"].items() if c2 not in hist["untracked"] for l in m.values()}
                 for loc in gone:
-                    if loc in o.M:
+                    if loc in o.M or loc in tracked_users:
                         return [viol("unregister-cleared-used-location", "%s erased %s which still has users" % (o.op, loc),
                                      alias=bool(hist["alias"]), remapchg=bool(hist["remapchg"]))]
                     if t[-1] != "1":
@@ -418,6 +462,8 @@ class C07(BbProp):
     def check_op(self, prev, o, hist):
         t = o.op.split()
         op = t[0]
+        if op in ("reg", "unregkey", "unregall", "unreg"):
+            return client_sets_clause(hist, o)
         if op not in ("setattr", "getattr", "set", "get", "exists", "unset", "dotget", "dotset"):
             return []
         c = int(t[1])
@@ -436,7 +482,20 @@ class C07(BbProp):
             a = absname(cl["ns"], key)
             need_write = op in ("setattr", "set", "unset")
         permitted = can_write(cl, a) if need_write else can_read(cl, a)
+        acc = hist["acc"].get(c)
+        if acc is not None and c not in hist["untracked"]:
+            # what the client may do follows from its live registrations (tracked from the operations), not from the
+            # sets the implementation keeps
+            lv = acc.get(a, set())
+            permitted = bool(lv & {"w", "x"}) if need_write else bool(lv)
         raised = o.R in ("AttributeError", "KeyError", "TypeError", "internal")
+        # a name that is a proper namespace of one of the client's registered keys is not data: reading it hands out the
+        # namespace accessor (that is the dotted-access mechanism of C06 / C15), which is not an access to a variable
+        is_ns = any(k.startswith(a + "/") for k in set(cl["r"]) | set(cl["w"]) | set(cl["x"]))
+        if not permitted and not need_write and is_ns and (o.R.startswith("fetcher") or o.R == "True"):
+            if prev.S != o.S:
+                out.append(viol("read-changed-store", "`%s` changed the store" % o.op, op=op))
+            return out
         if not permitted:
             if not raised:
                 out.append(viol("denied-op-did-not-raise", "client %d has %s access to %s but `%s` returned %s"
@@ -562,6 +621,8 @@ class C14(BbProp):
     def check_op(self, prev, o, hist):
         out = []
         sig = dict(alias=bool(hist["alias"]), remapchg=bool(hist["remapchg"]))
+        if o.op.split()[0] in ("reg", "unregkey", "unregall", "unreg"):
+            out += client_sets_clause(hist, o)
         want = {}
         for c, cl in o.C.items():
             for lvl in "rwx":
@@ -721,6 +782,11 @@ class C16(BbProp):
                 out.append(viol("enable", "stream not enabled"))
             if t[1] == "on" and prev.A is None and o.A is not None and (o.A[0] != int(t[2]) or o.A[1]):
                 out.append(viol("enable", "fresh stream %s" % (o.A,)))
+            if t[1] == "on" and prev.A is not None and o.A is not None and \
+                    (o.A[0] != prev.A[0] or [tuple(r) for r in o.A[1]] != [tuple(r) for r in prev.A[1]]):
+                # enabling a stream that is already enabled keeps it: its bound and the records it retains
+                out.append(viol("re-enable", "`%s` on an enabled stream (max %d, %d records) left max %d, %d records"
+                                % (o.op, prev.A[0], len(prev.A[1]), o.A[0], len(o.A[1]))))
             if t[1] == "clear" and o.A is not None and o.A[1]:
                 out.append(viol("clear", "stream not empty after clear"))
             return out
